@@ -254,6 +254,11 @@ def value_alphabet():
         "int-array": np.arange(4),
         "2d-array": np.arange(6.0).reshape(2, 3),
         "empty-array": np.array([]),
+        "one-element-array": np.array([2.5]),
+        "one-element-int-array": np.array([7]),
+        "1x1-array": np.array([[3.0]]),
+        "one-row-structured-array": st[:1].copy(),
+        "list-of-one-array": [np.array([1.5])],
         "structured-array": st,
         "list-of-floats": [0.1, 0.2],
         "list-of-arrays": [np.array([1.0, 2.0]), np.array([3.0, 4.0])],
